@@ -82,8 +82,13 @@ def launch_all(ctx, jobs, workers=None):
 
 # ----------------------------------------------------------------------------- histories
 
-def run_step(n, countries, preset):
-    return {"kind": "run", "id": f"s{n}", "countries": list(countries), "preset": preset}
+def run_step(n, countries, preset, yaml_group=None):
+    st = {"kind": "run", "id": f"s{n}", "countries": list(countries), "preset": preset}
+    if yaml_group is not None:
+        # consecutive steps of one group are executed by ONE call of run_scenarios_from_yaml (one simulation each)
+        st["yaml_group"] = yaml_group
+        st["nmonths"] = PRESETS[preset]["NMONTHS"]
+    return st
 
 
 def ow_step(n, k):
@@ -124,7 +129,9 @@ def make_plan(ctx):
                 b.append(ow_step(n, rng.randrange(5))); n += 1
             b.append(run_step(n, [x[0]], x[1])); n += 1
         b.append(run_step(n, [order[0][0]], order[0][1])); n += 1
-        b.append(run_step(n, [order[0][0]], order[0][1]))     # the same run twice in a row
+        b.append(run_step(n, [order[0][0]], order[0][1])); n += 1    # the same run twice in a row
+        b.append(run_step(n, [p[1][0]], "baseline", yaml_group="y0")); n += 1      # the yaml loop: two simulations, one country
+        b.append(run_step(n, [p[1][0]], p[3][1], yaml_group="y0"))
         batches.append(b)
     else:
         nb = 40
@@ -142,7 +149,13 @@ def make_plan(ctx):
                     cl += [y[0] for y in pairs if y[1] == x[1] and y[0] != x[0]][:2]
                 b.append(run_step(n, cl, x[1])); n += 1
             if rng.random() < 0.5:
-                b.append(run_step(n, [picks[0][0]], picks[0][1]))
+                b.append(run_step(n, [picks[0][0]], picks[0][1])); n += 1
+            if k % 3 == 0:
+                # a yaml loop over every simulation (120 months) known for one country
+                c = rng.choice(sorted({x[0] for x in pairs}))
+                sims = [x[1] for x in pairs if x[0] == c and PRESETS[x[1]]["NMONTHS"] == 120]
+                pos = rng.randrange(len(b) + 1)
+                b[pos:pos] = [run_step(n + i, [c], pz, yaml_group=f"y{k}") for i, pz in enumerate(sims)]
             batches.append(b)
     return pairs, batches
 
@@ -324,7 +337,8 @@ def run(ctx):
         return
     pairs, batches = make_plan(ctx)
     ctx.notes["pairs"] = [list(p) for p in pairs]
-    ctx.notes["histories"] = [[(s["countries"], s["preset"]) if s["kind"] == "run" else s["how"] for s in b] for b in batches][:8]
+    ctx.notes["histories"] = [[(s["countries"], s["preset"] + ("@yaml" if "yaml_group" in s else "")) if s["kind"] == "run"
+                               else s["how"] for s in b] for b in batches][:8]
     jobs = []
     for i, (c, p) in enumerate(pairs):
         jobs.append((f"alone{i}", payload_of([run_step(0, [c], p)]), "0"))
@@ -365,7 +379,8 @@ def run(ctx):
 
     # ---- differential audit (the property itself, on the implementation)
     ndiff = 0
-    interleavings = {"overwrite_before": 0, "multi_country_calls": 0, "repeats": 0, "failed_runs": 0}
+    interleavings = {"overwrite_before": 0, "multi_country_calls": 0, "repeats": 0, "failed_runs": 0,
+                     "via_run_scenarios_from_yaml": 0}
     for k, b in enumerate(batches):
         o = outs[f"batch{k}"]
         seen_pairs = set()
@@ -376,6 +391,8 @@ def run(ctx):
                 continue
             if len(st["countries"]) > 1:
                 interleavings["multi_country_calls"] += 1
+            if "yaml_group" in st:
+                interleavings["via_run_scenarios_from_yaml"] += 1
             for iso in st["countries"]:
                 pr = (iso, st["preset"])
                 a = alone.get(pr)
